@@ -75,6 +75,20 @@ fn main() {
                 (Some("bersim"), Some("C12")) => {
                     campaign::replay_file(&body, path, &|c, o| c12::oracle_c12(c, o))
                 }
+                (Some("bersim-long-frame"), Some("C12")) => {
+                    let lc = c12::LongCfg::from_json(&body["config"]).unwrap_or_else(|| harness_error("bad long-frame replay"));
+                    match c12::long_frame_probe(&lc) {
+                        Some(x) => {
+                            println!("VIOLATION property=C12 replay={}", path);
+                            println!("  kind={} detail={}", x.kind, x.detail);
+                            std::process::exit(1)
+                        }
+                        None => {
+                            println!("NOT-REPRODUCED property=C12 replay={}", path);
+                            std::process::exit(0)
+                        }
+                    }
+                }
                 (Some("bersim-calibration"), Some("C12")) => {
                     let cfg = bersim::BerCfg::from_json(&body["config"]).unwrap_or_else(|e| harness_error(&e));
                     let obs = bersim::run_one(&cfg);
